@@ -651,6 +651,17 @@ impl Group {
         key_tag: u16,
         cache: &SigCache,
     ) -> bool {
+        // Whether the signature is within its validity period depends on
+        // when we are asked, so that part of the answer cannot come from
+        // the cache: a signature that was fine when it was first seen may
+        // have expired since.
+        let ts_now = Timestamp::now();
+        if ts_now.canonical_gt(&sig.data().expiration())
+            || ts_now.canonical_lt(&sig.data().inception())
+        {
+            return false;
+        }
+
         let mut signed_data = Vec::<u8>::new();
         sig.data()
             .signed_data(&mut signed_data, &mut self.rr_set())
